@@ -107,7 +107,12 @@ func VerifC10Terminate() {
 	}
 
 	// the terminating event
-	event := vf.Choice("event", 7)
+	nEvents := 7
+	if state == 2 {
+		nEvents = 8
+	}
+	failLate := false
+	event := vf.Choice("event", nEvents)
 	switch event {
 	case 0:
 		client.endpointCloses()
@@ -134,10 +139,22 @@ func VerifC10Terminate() {
 			fr.WriteHeaders(http2.HeadersFrameParam{StreamID: 5, BlockFragment: zzheaderBlock(), EndHeaders: true})
 			fr.WriteData(5, false, []byte("x"))
 		}))
+	case 7: // (state 2) the server is slow to take a relayed PING; meanwhile it opens the stream
+		// window, so the held-back DATA is handed to the writer of the same direction, which now
+		// waits for the PING write to finish; that write then fails
+		gate = make(chan struct{})
+		server.gate = gate
+		client.send(zzframeBytes(func(fr *http2.Framer) { fr.WritePing(false, [8]byte{9}) }))
+		vf.Quiesce()
+		server.send(zzframeBytes(func(fr *http2.Framer) { fr.WriteWindowUpdate(1, 1000) }))
+		failLate = true
 	}
 	vf.Quiesce()
+	if failLate {
+		server.failWrites = true
+	}
 	if gate != nil {
-		// the slow server takes (or, for event 2, refuses) the pending write at last
+		// the slow server takes (or, for events 2 and 7, refuses) the pending write at last
 		close(gate)
 		vf.Quiesce()
 	}
